@@ -229,6 +229,12 @@ def c08(run, args):
     beh += concretise(run, bfs5, ["mem", "file"], rotating, unit, rng, "bfs5")
     beh += concretise(run, sim, ["mem", "file"], (lambda i, st: (mem_cfgs if st == "mem" else file_cfgs)) if quick else (lambda i, st: rotating(i, st, 4)),
                       300, rng, "sim", probe_every=10)
+    # the content file of the message the cap is about to evict has disappeared (file store): the delivery is still a delivery
+    for cap in (1, 2, 3):
+        for extra in (0, 1):
+            ops = [{"op": "add", "mb": 0, "meta": 1, "size": 600} for _ in range(cap)] + [{"op": "probe"}]
+            ops += [{"op": "addgone", "mb": 0, "meta": 1, "size": 600}, {"op": "probe"}] * (1 + extra) + [{"op": "add", "mb": 0, "meta": 1, "size": 600}, {"op": "probe"}]
+            beh.append({"id": "gone-c%d-%d" % (cap, extra), "store": "file", "cap": cap, "maxkb": 0, "names": ["alpha", "beta", "gamma"], "ops": ops})
     run.cov["samples"] = [bfs[len(bfs) // 3], sim[0][:12]] if bfs and sim else []
     replay_and_validate(run, vh, beh, "c08", "C08 cap/size-limit eviction")
     run.cov["rule"] = ("TLC enumerates every add/remove/purge sequence (sizes 300/600/900 bytes, for a third of the sequences 400/800/1200 - a message larger than the whole 1 KiB limit; 2 mailboxes) up to the stated depth and simulates long "
